@@ -322,10 +322,23 @@ def finish(ctx, level, coverage, assumptions, extra=None):
         ev.update(extra)
     os.makedirs(os.path.join(VERIF, "evidence"), exist_ok=True)
     if ctx.replay_only is None:
+        check_evidence(ev)
         json.dump(ev, open(os.path.join(VERIF, "evidence", ctx.pid + ".json"), "w"), indent=1)
     print("%s %s tier=%s wall=%.1fs violations=%d known=%d" % (
         "FAIL" if rc else "PASS", ctx.pid, ctx.tier, time.time() - ctx.t0, len(new), len(hit)))
     return rc
+
+
+def check_evidence(ev):
+    """the evidence written must validate against the evidence schema (a malformed file makes the check useless)"""
+    schema = "/root/.vp/EVIDENCE.schema.json"
+    if not (os.path.exists(schema) and shutil.which("python3-vt")):
+        return
+    code = ("import json,sys,jsonschema\n"
+            "jsonschema.validate(json.load(sys.stdin), json.load(open('%s')))\n" % schema)
+    r = sh(["python3-vt", "-c", code], stdin=json.dumps(ev), timeout=60)
+    if r.returncode != 0:
+        raise Broken("evidence does not validate against %s:\n%s" % (schema, (r.stdout or "")[-1500:]))
 
 
 def validate_trace(ctx, module, cfg, events, env=None, name="trace", **kw):
